@@ -41,12 +41,19 @@ type sessionSpec struct {
 	Pre     bool      `json:"pre"`   // true: the letters start before the handshake (no implicit well-formed status first)
 	Letters []string  `json:"letters"`
 	Resp    *respSpec `json:"resp,omitempty"`
+	// Dup: after the peer's handshake a second session presents the SAME node identity (a reconnect that overtakes the
+	// end of the previous session); it must be refused, and a newcomer with a fresh identity must then be registered
+	// and served, before the letters are sent
+	Dup bool `json:"dup,omitempty"`
 }
 
 func (s sessionSpec) String() string {
 	mode := "after-handshake"
 	if s.Pre {
 		mode = "before-handshake"
+	}
+	if s.Dup {
+		mode += ", then a second session with the same identity, then a newcomer"
 	}
 	x := fmt.Sprintf("%s chain, %s: [%s]", s.Chain, mode, strings.Join(s.Letters, " ; "))
 	if s.Resp != nil {
@@ -311,11 +318,15 @@ func (p *hpeer) ended() bool {
 	}
 }
 
+// closeTimeout: how long teardown waits for the node's side of a session to end. Once a session has been found blocked
+// there is nothing left to learn from waiting (and a leaked lock would make every wait run to its end).
+var closeTimeout = func() time.Duration { return blockTimeout }
+
 func (p *hpeer) close() {
 	p.net.Close()
 	select {
 	case <-p.done:
-	case <-time.After(blockTimeout):
+	case <-time.After(closeTimeout()):
 	}
 	<-p.readerDone
 	close(p.quit)
@@ -455,6 +466,39 @@ func (sr *sessionRun) run() {
 		handshaken = true
 	}
 
+	if s.Dup && alive && handshaken {
+		d := e.connect(sr.pm, "same-identity", nodeID('P', sessionSeq), nil)
+		sr.handshake(d) // the node may answer with its status before it refuses the registration; either is fine
+		t := time.NewTimer(blockTimeout)
+		select {
+		case <-d.done:
+			res.count("a_duplicate_identity_refused", 1)
+		case <-t.C:
+			res.Blocked = fmt.Sprintf("a second session presenting the identity of a connected peer was neither refused nor ended within %v", blockTimeout)
+		}
+		t.Stop()
+		if res.Blocked == "" {
+			nw := e.connect(sr.pm, "newcomer", nodeID('N', sessionSeq), &responder{e: e, honest: true})
+			if st := sr.handshake(nw); st != "ok" {
+				res.Blocked = fmt.Sprintf("after a second session with the identity of a connected peer was refused, a new peer cannot complete the handshake (%s)", st)
+			} else if st := nw.send(protocol.GetBlockHashesFromNumberMsg, enc(getBlockHashesFromNumberData{sentinelNumber, sentinelAmount})); st != "ok" {
+				res.Blocked = fmt.Sprintf("after a second session with the identity of a connected peer was refused, the node does not take a newcomer's request (%s): new peers are not registered any more", st)
+			} else if st := nw.await(func(ms []rmsg) bool { return len(replies(ms)) >= 1 }, blockTimeout); st != "ok" {
+				res.Blocked = fmt.Sprintf("after a second session with the identity of a connected peer was refused, a newcomer's request is not answered within %v: new peers are not served any more", blockTimeout)
+			} else {
+				res.count("a_newcomer_served_after_duplicate", 1)
+			}
+			if res.Blocked != "" {
+				closeTimeout = func() time.Duration { return 2 * time.Second }
+			}
+			nw.close()
+		}
+		if res.Blocked != "" {
+			closeTimeout = func() time.Duration { return 2 * time.Second }
+		}
+		d.close()
+	}
+
 	for li, l := range letters {
 		if !alive || sr.postMortem || res.Blocked != "" {
 			res.Outcomes = append(res.Outcomes, "not-sent")
@@ -512,6 +556,10 @@ func (sr *sessionRun) run() {
 		}
 	}
 	// teardown
+	if res.Blocked != "" {
+		closeTimeout = func() time.Duration { return 2 * time.Second }
+		defer func() { closeTimeout = func() time.Duration { return blockTimeout } }()
+	}
 	sr.P.close()
 	if sr.W != nil {
 		sr.W.close()
@@ -520,7 +568,7 @@ func (sr *sessionRun) run() {
 	go func() { sr.pm.Stop(); close(stopped) }()
 	select {
 	case <-stopped:
-	case <-time.After(blockTimeout):
+	case <-time.After(closeTimeout()):
 		res.count("harness_pm_stop_timeout", 1)
 	}
 	sr.collectPanics(len(letters)-1, nil)
